@@ -299,6 +299,7 @@ def verify_function(reg, c, budget_paths=MAX_PATHS):
     rep = FunctionReport(c.qname)
     t0 = time.time()
     func = c.func
+    reg.current_props = tuple(c.props)
     info = frontend.funcinfo_of(func)
     rep.source = '%s:%d' % (info.filename, info.node.lineno)
     rep.sha = info.source_sha
@@ -432,6 +433,12 @@ def _run_path(interp, reg, c, func, rep):
         old = _call_pred(interp, c.old, env)
         env = dict(env, old=old)      # `when` conditions of exceptional outcomes may mention the pre-state
         reg.ghost_env['old'] = old        # visible to loop invariants
+    # `when` conditions of exceptional outcomes are predicates of the PRE-state: evaluated before the call
+    # (the function may mutate its arguments)
+    when_values = {}
+    for exc_cls, spec in c.raises.items():
+        if spec.get('when') is not None:
+            when_values[exc_cls] = interp.truth(_call_pred(interp, spec['when'], env))
     # positional order of the real function
     code = func.__code__
     names = list(code.co_varnames[:code.co_argcount + code.co_kwonlyargcount])
@@ -479,7 +486,7 @@ def _run_path(interp, reg, c, func, rep):
         for exc_cls, spec in c.raises.items():
             when = spec.get('when')
             if when is not None:
-                w = interp.truth(_call_pred(interp, when, env))
+                w = when_values[exc_cls]
                 st.oblige('%s : raises[%s] when-condition implies raise' % (fname, _exc_name(exc_cls)),
                           interp.not_(w), {'kind': 'exc-post'})
         for name, clause in c.ensures.items():
@@ -497,8 +504,8 @@ def _run_path(interp, reg, c, func, rep):
                 env2 = _clause_env(args, ghosts, {'exc': exc, 'old': old, 'trace': st.trace, 'ghost': st.ghost})
                 when = spec.get('when')
                 if when is not None:
-                    _oblige_clause(interp, '%s : raises[%s] only when' % (fname, _exc_name(exc_cls)),
-                                   when, env, {'kind': 'exc-post'})
+                    st.oblige('%s : raises[%s] only when' % (fname, _exc_name(exc_cls)), when_values[exc_cls],
+                              {'kind': 'exc-post'})
                 st.oblige('%s : raises[%s] is a declared outcome' % (fname, _exc_name(exc_cls)), True,
                           {'kind': 'exc-post'})
                 ens = spec.get('ensures')
